@@ -447,3 +447,14 @@ func DDMin(files Files, budget int, keep func(Files) bool) Files {
 	}
 	return cur
 }
+
+// CompileWith calls the real cl.NewPackage with the given importer, with or without a Recorder
+// (no recover here: the caller observes escapes).
+func CompileWith(fset *token.FileSet, pkg *ast.Package, imp types.Importer, withRecorder bool) (any, error) {
+	conf := &cl.Config{Fset: fset, Importer: imp, NoFileLine: true, RelativeBase: "/",
+		LookupClass: func(ext string) (*cl.Project, bool) { return nil, false }}
+	if withRecorder {
+		conf.Recorder = nopRecorder{}
+	}
+	return cl.NewPackage("", pkg, conf)
+}
